@@ -59,11 +59,26 @@ func checkC13(c c13Case, rec *Rec) *Violation {
 		got string
 	}
 	var hist []asked
-	long, err := newEngSet(c.Lists)
+	hasFault := false
+	for _, stp := range c.Steps {
+		if stp.Kind == "transient-fault" {
+			hasFault = true
+		}
+	}
+	var long *engSet
+	var flaky []*flakyList
+	var err error
+	if hasFault {
+		// histories with a read error that goes away again: string-backed lists whose next retrieval can be made to fail
+		long, flaky, err = newFlakyEngSet(c.Lists)
+	} else {
+		long, err = newEngSet(c.Lists)
+	}
 	if err != nil {
 		return viol(id, "C13:harness", "storage: %v", err)
 	}
 	defer long.cleanup()
+	afterFault := false
 	freshCache := map[string]string{}
 	fresh := func(q Q) (string, *Violation) {
 		if s, ok := freshCache[q.key()+fmt.Sprint(q.Host)]; ok {
@@ -104,6 +119,20 @@ func checkC13(c c13Case, rec *Rec) *Violation {
 			if cl := q.CName + "|" + q.CIP + "|" + fmt.Sprint(q.Tags) + "|" + q.DNSType; cl != lastClient {
 				nontrivial = true
 			}
+		case "transient-fault":
+			// the next retrieval from one list fails; the question asked meanwhile may get a poorer answer
+			// (that is C19's subject), every later question must be answered as by a fresh engine again
+			if len(flaky) == 0 || stp.Q == nil {
+				continue
+			}
+			fl := flaky[stp.Ref%len(flaky)]
+			fl.failNext.Store(1)
+			_, _ = long.answer(*stp.Q)
+			fl.failNext.Store(0)
+			afterFault = true
+			nontrivial = true
+			rec.Label("step:transient-fault")
+			goto invariant
 		case "derived":
 			if len(held) == 0 {
 				continue
@@ -156,6 +185,9 @@ func checkC13(c c13Case, rec *Rec) *Violation {
 			}
 			if got != want {
 				sig := "C13:history-dependent-answer"
+				if afterFault {
+					sig += ":after-transient-read-error"
+				}
 				if q.Host {
 					sig += ":dns"
 				} else {
@@ -250,10 +282,25 @@ func genC13(t *rapid.T) c13Case {
 	c := c13Case{Lists: lists}
 	n := rapid.IntRange(10, scale(60, 200)).Draw(t, "nsteps")
 	uniq := c13UniqID(lists)
+	faulty := chance(t, "history-with-transient-faults", 4)
 	for len(c.Steps) < n {
 		if uniq != "" && chance(t, "fresh-regex-query", 6) {
 			u := "http://x.com/" + pick(t, "uniq-case", []string{"uniq", "Uniq", "UNIQ"}) + uniq + pick(t, "uniq-letter", []string{"p", "p", "a", "b", "P"}) + "7"
 			q := Q{URL: u, Typ: pick(t, "uniq-type", []string{"image", "script", "script", "image", "other"})}
+			c.Steps = append(c.Steps, c13Step{Kind: "query", Q: &q})
+			continue
+		}
+		if faulty && chance(t, "transient-fault", 10) {
+			q := genQNear(t, models[rapid.IntRange(0, len(models)-1).Draw(t, "fault-for")])
+			if chance(t, "fault-fixed", 2) {
+				if q.Host {
+					q.Hostname = pick(t, "ffh", []string{"example.org", "a.com", "cn.example"})
+				} else {
+					q.URL = pick(t, "ffu", c01FixedURLs)
+				}
+			}
+			c.Steps = append(c.Steps, c13Step{Kind: "transient-fault", Q: &q, Ref: rapid.IntRange(0, 7).Draw(t, "fault-list")})
+			// the same question again, now that the list can be read
 			c.Steps = append(c.Steps, c13Step{Kind: "query", Q: &q})
 			continue
 		}
